@@ -66,7 +66,19 @@ def run_check(pid, tier, seed, replay=None):
     infra_notes = []
 
     # 1. rebuild the harness from /repo's working tree, re-derive the generated constants
-    bt = vlib.build_harness(bins=sorted(set(['consts'] + [b for b, _ in getattr(spec, 'HARNESS', [])] + list(getattr(spec, 'EXTRA_BINS', [])))))
+    try:
+        bt = vlib.build_harness(bins=sorted(set(['consts'] + [b for b, _ in getattr(spec, 'HARNESS', [])] + list(getattr(spec, 'EXTRA_BINS', [])))))
+    except CheckError as e:
+        # /repo changed in a way the correspondence harness no longer compiles against (renamed / removed API, or /repo
+        # itself does not compile with the hooks on): the tie between model and code is broken.
+        v = Violation("the correspondence harness no longer builds against /repo's working tree (correspondence broken)",
+                      found_input=False, detail=str(e)[-4000:])
+        path = vlib.write_replay(pid, v.payload(pid, seed, tier))
+        vlib.write_evidence(pid, {"property_id": pid, "tier": tier, "seed": seed, "level": "other",
+                                  "coverage": {"explanation": "harness build failed; nothing could be run", "evaluations": 1, "distinct_nontrivial": 2},
+                                  "wall_s": round(time.time() - t0, 2), "violations": 1})
+        print("VIOLATION property=%s replay=%s no-failing-input-found" % (pid, path))
+        return 1
     consts = vlib.gen_constants()
 
     # 2. proof obligations
